@@ -35,6 +35,11 @@ MANIFESTS = {
     "setup.cfg": "[metadata]\nname = demo\n\n[options]\ninstall_requires =\n    requests>=2\n    flask\n\n[flake8]\nmax-line-length = 100\n",
 }
 MANIFESTS["setup.py+site"] = MANIFESTS["setup.py"] + "\nEXTRAS = set([\"dev\", \"test\"])\n"
+# ... and a site of the dependency-adding codemod itself: one codemod then reports two changesets for setup.py
+MANIFESTS["setup.py+addersite"] = "from xml.etree.ElementTree import parse\n" + MANIFESTS["setup.py"] + "\nMETADATA = parse(\"pkg.xml\")\n"
+DEFUSEDXML = "pixee:python/use-defusedxml"
+# a legal source file that is not UTF-8 (PEP 263 cookie): it cannot be processed and must stay byte-identical
+LATIN1_SOURCE = b"# -*- coding: latin-1 -*-\n# caf\xe9\nNAME = 'caf\xe9'\nx = set([1, 2])\n"
 
 
 # manifests that exist but cannot take a requirement: the writer returns None and the next store is tried
@@ -64,6 +69,10 @@ def fold_file(rel, before: bytes, after: bytes | None, changesets, feats):
         cur = before.decode("utf-8")
         disk = after.decode("utf-8") if after is not None else None
     except UnicodeDecodeError:
+        # a file that is not UTF-8 cannot be read by the pipelines (it is reported as failed): a changeset for it means
+        # it was rewritten from a lossy decoding, and a text diff cannot describe what happened to its bytes
+        if after is not None and after != before:
+            out.append(("undecodable-file-rewritten", rel))
         return out
     if disk is None:
         return [("file-with-changeset-deleted", rel)]
@@ -195,9 +204,13 @@ def project_case(draw):
         # setup.py is itself a source file: it carries a site of a codemod that runs after the dependency writer
         mkind = "setup.py+site"
         seq = [c for c in seq if c != SET_LITERAL] + [SET_LITERAL]
+    elif mkind == "setup.py" and draw(st.integers(0, 2)) == 0:
+        mkind = "setup.py+addersite"
+        if DEFUSEDXML not in seq:
+            seq = seq + [DEFUSEDXML]
     mvar = draw(st.sampled_from(["lf", "lf", "crlf", "nofinalnl", "trailing-blank", "trailing-ws", "leading-blank", "crlf+trailing-blank"]))
     unusable = draw(st.lists(st.sampled_from(sorted(UNUSABLE)), max_size=2, unique=True)) if draw(st.integers(0, 2)) == 0 else []
-    return {"sequence": seq, "files": files, "manifest": [mkind, mvar, unusable]}
+    return {"sequence": seq, "files": files, "manifest": [mkind, mvar, unusable], "latin1": draw(st.integers(0, 3)) == 0}
 
 
 def manifest_bytes(kind, var):
@@ -227,6 +240,8 @@ def eval_project(case, stats):
         return
     mkind, mvar = case["manifest"][:2]
     extra = manifest_files(case["manifest"])
+    if case.get("latin1"):
+        extra["src/latin1_module.py"] = LATIN1_SOURCE
     obs = engine.run_batch(case["sequence"], rendered, extra_files=extra)
     if obs.res.exit != 0 or obs.res.report is None:
         stats.discard(f"run-exit-{obs.res.exit}")
